@@ -67,7 +67,7 @@ let to_line c =
   match c.path with
   | Full | Restore ->
       C07.to_line { C07.mode = (if c.path = Full then "sync" else "restore"); parallel = 3; tdb = c.tdb; dbblack = c.fc.dbblack; dbwhite = c.fc.dbwhite;
-                    keyblack = c.fc.keyblack; keywhite = c.fc.keywhite; slots = slot_strings c; filterlua = c.fc.lua; units = units c; fail = None }
+                    keyblack = c.fc.keyblack; keywhite = c.fc.keywhite; slots = slot_strings c; filterlua = c.fc.lua; units = units c; fail = None; cut = 0 }
   | Rump ->
       let payload = string_of_bytes (encode_dump Valgen.fmt_g17 (LString (bs "v"))) in
       let dbs = List.sort_uniq compare (List.map fst c.pop) in
